@@ -49,7 +49,7 @@ func c11Anchors() error {
 }
 
 func runC11(r *core.Run) {
-	r.Rule("differential comparison, bit for bit, of crypto.HashToCurve, crypto.DeriveKeysetId and nut13.DeriveKeysetPath/DeriveSecret/DeriveBlindingFactor with refcrypto (math/big + crypto/hmac, anchored on the published NUT-00/NUT-13 vectors); inputs: messages of length 0..600 incl. structured NUT-10 secrets and ones needing >= 4 counter iterations, key sets of 1..64 keys with arbitrary amounts, (seed, keyset id, counter) triples with seeds of 16/32/64 bytes, ids 00.., ff.., ids congruent 0 and -1 mod 2^31-1, counters 0,1,2^16,2^31-2,2^31-1 and random, and consecutive counter ranges, plus triples searched with the reference so that a private key with a leading zero byte occurs at each depth of the path; non-trivial = distinct inputs compared")
+	r.Rule("differential comparison, bit for bit, of crypto.HashToCurve, crypto.DeriveKeysetId and nut13.DeriveKeysetPath/DeriveSecret/DeriveBlindingFactor with refcrypto (math/big + crypto/hmac, anchored on the published NUT-00/NUT-13 vectors); inputs: messages of length 0..600 incl. structured NUT-10 secrets and ones needing >= 4 counter iterations, 15 messages needing 17..26 iterations (found by a search with the reference), key sets of 1..64 keys with arbitrary amounts, (seed, keyset id, counter) triples with seeds of 16/32/64 bytes, ids 00.., ff.., ids congruent 0 and -1 mod 2^31-1, counters 0,1,2^16,2^31-2,2^31-1 and random, and consecutive counter ranges, plus triples searched with the reference so that a private key with a leading zero byte occurs at each depth of the path; non-trivial = distinct inputs compared")
 	r.Assume("trusted: crypto/sha256, crypto/hmac, math/big, the published vectors")
 	if err := c11Anchors(); err != nil {
 		r.Violate("reference-broken", err.Error(), "anchors", nil)
@@ -113,6 +113,35 @@ func runC11(r *core.Run) {
 			}
 		}
 	})
+
+	// ---- hash_to_curve, directed: messages that need many counter iterations. One message in 2^k
+	// needs more than k, so random inputs never get far; these were found once with the
+	// reference implementation (cmd/h2csearch, 40 million candidates) and are re-checked with it
+	// here, so a wrong table entry makes the case inconclusive, not a verdict.
+	deep := []struct {
+		msg   string
+		iters int
+	}{
+		{"verif-h2c-855400", 17}, {"verif-h2c-20431", 18}, {"verif-h2c-382169", 18}, {"verif-h2c-861961", 19}, {"verif-h2c-990424", 19},
+		{"verif-h2c-511860", 20}, {"verif-h2c-1842742", 20}, {"verif-h2c-1695570", 21}, {"verif-h2c-10091883", 21}, {"verif-h2c-11260704", 22},
+		{"verif-h2c-14139917", 22}, {"verif-h2c-28057392", 23}, {"verif-h2c-28347257", 23}, {"verif-h2c-27653850", 24}, {"verif-h2c-37867057", 26},
+	}
+	for _, d := range deep {
+		sig := "h2c/deep/" + d.msg
+		ref, iters, rerr := refcrypto.HashToCurve([]byte(d.msg))
+		if rerr != nil || iters != d.iters {
+			r.Inconclusive(fmt.Sprintf("deep hash_to_curve table entry %s: reference needs %d iterations, table says %d", d.msg, iters, d.iters))
+			continue
+		}
+		got, gerr := crypto.HashToCurve([]byte(d.msg))
+		r.Eval(sig, true)
+		r.Count("h2c_inputs_needing_17+_iterations", 1)
+		if gerr != nil {
+			r.Violate("hash_to_curve:error-disagreement:many-iterations", fmt.Sprintf("%q needs %d iterations: the specification defines the point %s, repository err=%v", d.msg, iters, ref.Hex(), gerr), sig, d.msg)
+		} else if hex.EncodeToString(got.SerializeCompressed()) != ref.Hex() {
+			r.Violate("hash_to_curve:differs:many-iterations", fmt.Sprintf("%q (%d iterations): repository %x, spec %s", d.msg, iters, got.SerializeCompressed(), ref.Hex()), sig, d.msg)
+		}
+	}
 
 	// ---- keyset id
 	core.Parallel(16, 16, func(w int) {
